@@ -1,0 +1,102 @@
+//go:build verif
+
+// Contracts for the deductive checker in /verif (read only with -tags verif).
+
+package sm2
+
+// ---- ciphertext parsing and decryption: value or error for every input (C13), layout split (C07)
+//@ func (ciphertextSplicingOrder).splitC2C3 property C13,C07
+//@   requires len(ciphertext) >= 32
+//@   ensures order == 0 ==> sameslice(result0, ciphertext[32:]) && sameslice(result1, ciphertext[:32])
+//@   ensures order != 0 ==> sameslice(result0, ciphertext[:len(ciphertext)-32]) && sameslice(result1, ciphertext[len(ciphertext)-32:])
+//@   modifies nothing
+
+//@ func unmarshalASN1Ciphertext property C13,C07
+//@   ensures err == nil ==> len(result2) <= len(ciphertext) && len(result3) <= len(ciphertext) && result0 != nil && result1 != nil
+//@   modifies nothing
+
+//@ func (*sm2Curve).pointFromAffine property C13
+//@   requires curve != nil && curve.curve != nil && curve.newPoint != nil && x != nil && y != nil
+//@   ensures err == nil ==> p != nil
+//@   fnspec newPoint: std:pointCreator
+//@   heapnonnil
+//@   modifies everything
+
+//@ func parseCiphertextASN1 property C13,C07
+//@   requires c != nil && c.curve != nil && c.newPoint != nil
+//@   ensures err == nil ==> len(result1) <= len(ciphertext) && result0 != nil
+//@   fnspec newPoint: std:pointCreator
+//@   heapnonnil
+//@   modifies everything
+
+//@ func parseCiphertext property C13,C07
+//@   requires c != nil && c.curve != nil && c.newPoint != nil
+//@   ensures err == nil ==> len(result1) <= len(ciphertext) && result0 != nil
+//@   fnspec newPoint: std:pointCreator
+//@   heapnonnil
+//@   modifies everything
+
+// the all-zero test of step B4 is on t = KDF(x2 || y2, klen), the value msg holds at that point
+//@ func decryptSM2EC property C13,C07
+//@   requires c != nil && c.curve != nil && c.newPoint != nil && priv != nil && len(ciphertext) <= 4000000000
+//@   assert before call ConstantTimeAllZero#1: sameslice(arg0, msg)
+//@   inlinecall sm3.New
+//@   heapnonnil
+//@   modifies everything
+
+// (FillBytes panics when the value needs more bytes than the field size; the coordinates handed in
+// are results of curve arithmetic - assumed to fit)
+//@ func bigIntToBytes property C13
+//@   requires curve != nil && value != nil
+//@   ensures len(result) == (CURVEBITS(id(curve)) + 7) / 8
+//@   fresh result
+//@   modifies nothing
+
+//@ func calculateC3 property C13,C07
+//@   requires curve != nil && x2 != nil && y2 != nil && len(msg) <= 4000000000
+//@   modifies nothing
+
+//@ func rawDecrypt property C13,C07
+//@   requires priv != nil && len(c2) <= 4000000000
+//@   assert before call ConstantTimeAllZero#1: sameslice(arg0, msg)
+//@   heapnonnil
+//@   modifies everything
+
+//@ func bytesToPoint property C13
+//@   requires curve != nil
+//@   ensures err == nil ==> 1 <= result2 && result2 <= len(bytes) && result0 != nil && result1 != nil
+//@   heapnonnil
+//@   modifies everything
+
+//@ func decryptASN1 property C13,C07
+//@   requires priv != nil && len(ciphertext) <= 4000000000
+//@   heapnonnil
+//@   modifies everything
+
+//@ func decryptLegacy property C13,C07
+//@   requires priv != nil && priv.Curve != nil && 0 < len(ciphertext) && len(ciphertext) <= 4000000000
+//@   heapnonnil
+//@   modifies everything
+
+//@ func ParseEnvelopedPrivateKey property C13,C14
+//@   requires priv != nil
+//@   heapnonnil
+//@   modifies everything
+
+// ---- encryption (C07). The public point Q is an input of every attempt: a retry (t all zero, which
+// has probability 2^-8n for an n-byte message) must start from the same Q. The all-zero test of
+// step A5 is on t = KDF(x2 || y2, klen), the value c2 holds at that point.
+// randomPoint is assumed to touch only memory it allocates (and the random source).
+//@ func randomPoint trusted
+//@   ensures err == nil ==> k != nil && p != nil
+//@   modifies nothing
+
+//@ func encryptSM2EC property C07
+//@   requires c != nil && c.curve != nil && c.newPoint != nil && pub != nil && opts != nil && len(msg) <= 4000000000
+//@   fnspec newPoint: std:pointCreator
+//@   loop 1 let S := state()
+//@   loop 1 invariant unchanged(S, *Q) && 0 <= retryCount && retryCount <= 100
+//@   assert before call ConstantTimeAllZero#1: sameslice(arg0, c2)
+//@   inlinecall sm3.New
+//@   heapnonnil
+//@   modifies everything
